@@ -349,26 +349,35 @@ def _run_partition(ctx, case, prog, cm, built, objs, parts, nest, kinds):
                 elif o2[1].startswith("cause=pt_tls"):
                     ctx.inconclusive("masked: static TLS segment misalignment (a C28 finding) hides the mechanism probe")
                     continue
+            MERGE_SIG = "final-link-by-wild:merged-string-reference-wrong(fixed-by---no-string-merge)"
+            sigs = None
             if mech is None and nest:
                 # same effective object order, but only first-level partial links
                 flat_inputs, _m, _f, fail = partial(case, "wild", [parts[k] for k in seq], objs, [])
                 if fail is None:
+                    nz = any(sy.type == elf.STT_SECTION and sy.value for o in w_made for sy in elf.Elf(o).symtab())
+                    nested_sig = "nested-partial-link:output-corrupt(first-level-outputs-link-fine)" + \
+                        (":section-symbols-with-nonzero-value" if nz else "")
                     lr3 = pg.link_and_run(ctx, final, prog, built, kind, workdir=case.dir(f"{final}-wr-flat-" + kind), inputs_override=flat_inputs)
                     if pc.outcome(lr3, ref.transcript, kind)[0] == "same":
-                        nz = any(sy.type == elf.STT_SECTION and sy.value for o in w_made for sy in elf.Elf(o).symtab())
-                        mech = "nested-partial-link:output-corrupt(first-level-outputs-link-fine)" + \
-                            (":section-symbols-with-nonzero-value" if nz else "")
+                        mech = nested_sig
+                    elif final == "wild":
+                        lr4 = pg.link_and_run(ctx, final, prog, built, kind, workdir=case.dir(f"{final}-wr-flat-nomerge-" + kind),
+                                              inputs_override=flat_inputs, extra_link_args=["-Wl,--no-string-merge"])
+                        if pc.outcome(lr4, ref.transcript, kind)[0] == "same":
+                            sigs = [nested_sig, MERGE_SIG]      # both mechanisms are needed to explain it
             if mech:
                 sig = mech
             d = pg.diff_transcripts(ref.transcript, lr.transcript or "")[:6] if lr.run is not None else []
-            violation(ctx, case, sig,
-                      f"program linked by {final} from wild -r outputs differs from the direct link: {cls} {detail}; "
-                      f"first differences (probe, id, direct, partial): {d}; stderr: {(lr.link.errtext() if lr.link else '')[:300]}",
-                      prog, cm, objs, parts, nest,
-                      {**wr, "direct.transcript": ref.transcript,
-                       "partial.transcript": lr.transcript or "", "final.stderr": lr.link.errtext() if lr.link else "",
-                       "commands.txt": pg.command_text(ctx, final, prog, lr)},
-                      info={"groups": parts, "nested": nest, "kind": kind})
+            for sg in (sigs or [sig]):
+                violation(ctx, case, sg,
+                          f"program linked by {final} from wild -r outputs differs from the direct link: {cls} {detail}; "
+                          f"first differences (probe, id, direct, partial): {d}; stderr: {(lr.link.errtext() if lr.link else '')[:300]}",
+                          prog, cm, objs, parts, nest,
+                          {**wr, "direct.transcript": ref.transcript,
+                           "partial.transcript": lr.transcript or "", "final.stderr": lr.link.errtext() if lr.link else "",
+                           "commands.txt": pg.command_text(ctx, final, prog, lr)},
+                          info={"groups": parts, "nested": nest, "kind": kind})
     return None
 
 
@@ -401,6 +410,67 @@ def pinned_common(ctx):
     ctx.held(fingerprint="pinned:common", nontrivial=True)
 
 
+# ---- pinned minimal programs for the other defects found on the unchanged tree ------------------------
+
+_HDR = '#include <stdio.h>\n#define P(k, id, v) printf("%s %s = %d\\n", k, id, (int)(v))\n'
+_FILL = "int fill_%d(int x) { return x + %d; }\n"
+_MAIN_TAIL = 'P("end", "main", 0); return 0; }\n'
+PINNED = {
+    # a hidden global defined in one partial-link group and used from outside it
+    "hidden": dict(cm="pic", units=[
+        ("c", _HDR + 'extern int c_get(void);\nextern int fill_1(int);\nint main() { P("call", "m:c_get", c_get()); P("call", "m:f", fill_1(1)); '
+                     'P("data", "m:1", 1); P("data", "m:2", 2); P("data", "m:3", 3); ' + _MAIN_TAIL),
+        ("c", '__attribute__((visibility("hidden"))) int hf(int x) { return x + 40; }\n__attribute__((visibility("hidden"))) int hd = 2;\n'),
+        ("c", 'extern __attribute__((visibility("hidden"))) int hf(int);\nextern __attribute__((visibility("hidden"))) int hd;\nint c_get(void) { return hf(hd); }\n'),
+        ("c", _FILL % (1, 1))], parts=[[1, 3], [0], [2]], nest=[], kinds=["pie"]),
+    # __start_/__stop_ references
+    "start-stop": dict(cm="pic", units=[
+        ("c", _HDR + 'extern int count(void);\nextern int fill_1(int);\nint main() { P("sect", "m:count", count()); P("call", "m:f", fill_1(1)); '
+                     'P("data", "m:1", 1); P("data", "m:2", 2); P("data", "m:3", 3); ' + _MAIN_TAIL),
+        ("c", 'int e1 __attribute__((section("pinset"))) = 1;\nint e2 __attribute__((section("pinset"))) = 2;\n'
+              'extern int __start_pinset[], __stop_pinset[];\nint count(void) { return (int)(__stop_pinset - __start_pinset); }\n'),
+        ("c", _FILL % (1, 1))], parts=[[1, 2], [0]], nest=[], kinds=["pie"]),
+    # COMDAT groups of a C++ inline function with a static local, one copy inside a group
+    "comdat": dict(cm="pic", cxx=True, units=[
+        ("c++", '#include <cstdio>\ninline int counter() { static int n = 0; return ++n; }\nextern "C" int other(void);\nextern "C" int fill_1(int);\n'
+                'int main() { printf("cxx m:counter = %d\\n", counter()); printf("cxx m:other = %d\\n", other()); printf("cxx m:counter2 = %d\\n", counter());\n'
+                'printf("call m:f = %d\\n", fill_1(1)); printf("data m:1 = 1\\n"); printf("end main = 0\\n"); return 0; }\n'),
+        ("c++", 'inline int counter() { static int n = 0; return ++n; }\nextern "C" int other(void) { return counter(); }\n'),
+        ("c", _FILL % (1, 1))], parts=[[1, 2], [0]], nest=[], kinds=["pie"]),
+    # a wild -r output used as an input of another wild -r
+    "nested": dict(cm="pic", units=[
+        ("c", _HDR + 'extern int a_get(void), b_get(void), c_get(void);\nint main() { P("addr", "m:a", a_get()); P("addr", "m:b", b_get()); P("addr", "m:c", c_get()); '
+                     'P("data", "m:1", 1); P("data", "m:2", 2); ' + _MAIN_TAIL),
+        ("c", 'static int ax[4] = { 10, 11, 12, 13 };\nstatic int *volatile ap = &ax[2];\nint a_get(void) { return *ap; }\n'),
+        ("c", 'static int bx[4] = { 20, 21, 22, 23 };\nstatic int *volatile bp = &bx[3];\nint b_get(void) { return *bp; }\n'),
+        ("c", 'static int cx[4] = { 30, 31, 32, 33 };\nstatic int *volatile cp = &cx[1];\nint c_get(void) { return *cp; }\n')],
+        parts=[[0], [3], [1, 2]], nest=[(1, 2)], kinds=["pie"]),
+    # wild's final link of a wild -r output: references into merged strings
+    "merged-string": dict(cm="nopic", units=[
+        ("c", '#include <stdio.h>\nstruct e { int tag; const char *name; };\nstatic const struct e e0 = { 5, "name-e0" };\nconst struct e *const ep = &e0;\n'
+              'extern int fill_1(int);\n__attribute__((noinline)) void g(const char *a, const char *b) { printf("str m:g = %s %s\\n", a, b); }\n'
+              'int main() { g("short", "a string of forty characters or more....!"); printf("str m:ep = %s\\n", ep->name); printf("call m:f = %d\\n", fill_1(1));\n'
+              'printf("data m:1 = 1\\n"); printf("data m:2 = 2\\n"); printf("end main = 0\\n"); return 0; }\n'),
+        ("c", _FILL % (1, 1))], parts=[[0, 1]], nest=[], kinds=["dyn"]),
+}
+
+
+def pinned_prog(ctx, name):
+    spec = PINNED[name]
+    prog = pg.Program()
+    for k, (lang, src) in enumerate(spec["units"]):
+        u = pg.Unit(f"p{k}", lang, "exe")
+        u.src["*"] = src
+        u.cflags = ["-O1"]
+        prog.units.append(u)
+    prog.needs_cxx = bool(spec.get("cxx"))
+    prog.desc = "pinned:" + name
+    cm = spec["cm"]
+    case = Case(ctx, "pinned-" + name)
+    built = prog.build(ctx, cm)
+    _run_partition(ctx, case, prog, cm, built, [b.obj for b in built], spec["parts"], spec["nest"], spec["kinds"])
+
+
 def main(ctx):
     ctx.rule = ("proggen programs (random features incl. TLS, COMDAT, weak/common, strings, eh_frame, init arrays, custom sections, "
                 "same-named locals) x a random partition of the objects into 1-4 `wild -r` groups (50% with one nested partial link) x "
@@ -411,8 +481,13 @@ def main(ctx):
                        "a grouping for which `ld -r` + ld is itself not transparent is inconclusive"]
     tools.wild()
     n = ctx.pick(14, 300)
-    jobs = [("pin", 0)] + [("p", i) for i in range(n)]
+    jobs = [("pin", 0)] + [("pinp", k) for k in PINNED] + [("p", i) for i in range(n)]
     if ctx.replay is not None:
         c = str(ctx.replay.get("case"))
-        jobs = [("pin", 0)] if c.startswith("pinned") else [("p", int(c))]
-    pmap(lambda j: pinned_common(ctx) if j[0] == "pin" else one_program(ctx, j[1]), jobs)
+        if c == "pinned-common":
+            jobs = [("pin", 0)]
+        elif c.startswith("pinned-"):
+            jobs = [("pinp", c[len("pinned-"):])]
+        else:
+            jobs = [("p", int(c))]
+    pmap(lambda j: pinned_common(ctx) if j[0] == "pin" else pinned_prog(ctx, j[1]) if j[0] == "pinp" else one_program(ctx, j[1]), jobs)
